@@ -88,3 +88,58 @@ M("C01", "drain-skips-close", "connectionpool.py",
 M("C01", "conn-close-keeps-sock-on-error", "connection.py",
   "        try:\n            super().close()\n        finally:\n            # Reset all stateful properties so connection\n            # can be re-used without leaking prior configs.\n            self.sock = None\n",
   "        try:\n            super().close()\n        finally:\n            pass\n        if True:\n            self.sock = None\n", rule="C01-R11")
+
+# --------------------------------------------------------------------------- C02
+M("C02", "cache-last-connection-on-pool", "connectionpool.py",
+  "            conn = self._get_conn(timeout=pool_timeout)\n\n            conn.timeout",
+  "            conn = self._get_conn(timeout=pool_timeout)\n            self._last_conn = conn\n\n            conn.timeout", rule="C02-R")
+M("C02", "qsize-on-live-field-again", "connectionpool.py",
+  "                    pool.qsize(),", "                    self.pool.qsize(),", rule="C02-R3")
+M("C02", "get-conn-loses-attributeerror-arm", "connectionpool.py",
+  "        except AttributeError:  # self.pool is None\n            raise ClosedPoolError(self, \"Pool is closed.\") from None  # Defensive:\n\n        except queue.Empty:",
+  "        except queue.Empty:", rule="C02-R3")
+M("C02", "close-drains-live-field", "connectionpool.py",
+  "        old_pool, self.pool = self.pool, None\n\n        # Close all the HTTPConnections in the pool.\n        _close_pool_connections(old_pool)",
+  "        old_pool = self.pool\n\n        # Close all the HTTPConnections in the pool.\n        _close_pool_connections(old_pool)\n        self.pool = None", rule="C02-R4")
+M("C02", "finalizer-captures-self", "connectionpool.py",
+  "        weakref.finalize(self, _close_pool_connections, pool)", "        weakref.finalize(self, self.close)", rule="C02-R5")
+M("C02", "probe-lock-released-only-on-success", "connection.py",
+  "            if target_supports_http2 is None:\n                http2_probe.set_and_release(\n                    host=probe_http2_host, port=probe_http2_port, supports_http2=None\n                )\n            raise",
+  "            raise", rule="C02-R6")
+M("C02", "put-blocks-when-full", "connectionpool.py",
+  "                pool.put(conn, block=False)", "                pool.put(conn, block=self.block)", rule="C02-R7")
+M("C02", "take-always-blocks", "connectionpool.py",
+  "            conn = self.pool.get(block=self.block, timeout=timeout)", "            conn = self.pool.get(block=True, timeout=timeout)", rule="C02-R7")
+M("C02", "fifo-list-instead-of-queue", "connectionpool.py",
+  "    QueueCls = queue.LifoQueue", "    QueueCls = collections.deque", rule="C02-R7")
+M("C02", "benign-queuecls-fifo", "connectionpool.py",
+  "    QueueCls = queue.LifoQueue", "    QueueCls = queue.Queue", benign=True)
+M("C02", "new-pool-under-foreign-lock-sleeps", "poolmanager.py",
+  "            pool = self._new_pool(scheme, host, port, request_context=request_context)\n            self.pools[pool_key] = pool",
+  "            pool = self._new_pool(scheme, host, port, request_context=request_context)\n            pool.urlopen(\"HEAD\", \"/\")\n            self.pools[pool_key] = pool", rule="C02-R6")
+
+# --------------------------------------------------------------------------- C03
+M("C03", "no-dropped-check-on-checkout", "connectionpool.py",
+  "        if conn and is_connection_dropped(conn):\n            log.debug(\"Resetting dropped connection: %s\", self.host)\n            conn.close()\n",
+  "", rule="C03-R1")
+M("C03", "dropped-logged-not-closed", "connectionpool.py",
+  "            log.debug(\"Resetting dropped connection: %s\", self.host)\n            conn.close()\n",
+  "            log.debug(\"Resetting dropped connection: %s\", self.host)\n", rule="C03-R1")
+M("C03", "is-connected-negation-lost", "connection.py",
+  "        return not wait_for_read(self.sock, timeout=0.0)", "        return wait_for_read(self.sock, timeout=0.0)", rule="C03-R2")
+M("C03", "probe-blocks", "connection.py",
+  "        return not wait_for_read(self.sock, timeout=0.0)", "        return not wait_for_read(self.sock, timeout=None)", rule="C03-R2")
+M("C03", "dropped-ignores-is-connected", "util/connection.py",
+  "    return not conn.is_connected", "    return conn.is_closed", rule="C03-R2")
+M("C03", "catcher-releases-without-closed-guard", "response.py",
+  "            if self._original_response and self._original_response.isclosed():\n                self.release_conn()",
+  "            if self._original_response:\n                self.release_conn()", rule="C03-R4")
+M("C03", "clean-exit-true-in-discard-handler", "connectionpool.py",
+  "            # replaced during the next _get_conn() call.\n            clean_exit = False\n",
+  "            # replaced during the next _get_conn() call.\n            clean_exit = isinstance(e, ProtocolError)\n", rule="C0")
+M("C03", "head-length-not-zero", "response.py",
+  "        if status in (204, 304) or 100 <= status < 200 or request_method == \"HEAD\":",
+  "        if status in (204, 304) or 100 <= status < 200:", rule="C03-R6")
+M("C03", "second-feeder", "response.py",
+  "        self._pool._put_conn(self._connection)\n        self._connection = None",
+  "        self._pool.pool.put(self._connection, block=False)  # type: ignore[union-attr]\n        self._connection = None", rule="C03-R4")
